@@ -2,7 +2,9 @@
 // std::net address types: textual form is an uninterpreted injective function of the octets (std guarantees parse(display(ip)) == ip)
 pub uninterp spec fn ip4_display(o: Seq<u8>) -> Seq<char>;
 pub uninterp spec fn ip6_display(o: Seq<u8>) -> Seq<char>;
+#[derive(Clone, Copy)]
 pub struct Ipv4Addr { pub o: [u8; 4] }
+#[derive(Clone, Copy)]
 pub struct Ipv6Addr { pub o: [u8; 16] }
 impl Ipv4Addr {
     pub fn from(b: [u8; 4]) -> (r: Self) ensures r.o@ == b@ { Ipv4Addr { o: b } }
